@@ -231,7 +231,8 @@ def op_int(o):
     if k is not None and "int" in k:
         if "big" in k:
             return int(k["big"])
-        return k["int"]
+        v = k["int"]
+        return int(v) if isinstance(v, str) else v     # ints beyond 2^62 are dumped as strings
     return None
 
 
@@ -489,14 +490,29 @@ class Crate:
 class Facts:
     def __init__(self, cfg="all", repo=None, cache=None):
         self.cfg = cfg
+        self._repo, self._cache = repo, cache
         self.dir = extract(cfg, repo=repo, cache=cache)
         self._crates = {}
 
     def crate(self, name):
         if name not in self._crates:
+            import fcntl
+            from extract import CACHE
             p = os.path.join(self.dir, CRATE_FILES[name])
-            if not os.path.exists(p):
+            # a concurrent re-extraction (another check after /repo changed) rewrites these files under an
+            # exclusive lock: read under a shared lock, and re-run the (cached) extraction if the file is gone
+            for attempt in range(3):
+                lock = open(os.path.join(os.path.dirname(os.path.dirname(self.dir)), "extract.lock"), "a+")
+                fcntl.flock(lock, fcntl.LOCK_SH)
+                try:
+                    if os.path.exists(p):
+                        with open(p) as fh:
+                            self._crates[name] = Crate(json.load(fh))
+                        break
+                finally:
+                    fcntl.flock(lock, fcntl.LOCK_UN)
+                    lock.close()
+                self.dir = extract(self.cfg, repo=self._repo, cache=self._cache)
+            else:
                 raise AnchorMissing(f"fact file for crate {name} missing in cfg {self.cfg}")
-            with open(p) as fh:
-                self._crates[name] = Crate(json.load(fh))
         return self._crates[name]
